@@ -7,7 +7,15 @@ Extracted (fail closed on anything else):
   * `FitRange2D.check`, `FitRange3D.check`: a sequence of `if [not] <comparison>: raise ValueError(...)` and
     `if <bound> is None: raise ValueError(...)`;
   * the dispatch of `check_fit_ranges` (absent target accepted; out guards only if `out_fit_range`;
-    2D/3D check called with rows, cols[, readout_times]).
+    2D/3D check called with rows, cols[, readout_times]);
+  * pyxel/calibration/fitting_datatree.py, `ModelFittingDataTree.__init__`: the two calls of `check_fit_ranges`
+    (time-domain branch / single-readout branch) — which quantity is passed as rows / cols / readout_times:
+    the size of the target data read from file (`len(targets["y"])`, `targets.sizes["y"]`, `targets.shape[i]`,
+    a name unpacked from `targets_4d.shape` ...), the size of the simulated frame (`processor.detector.geometry.row`,
+    `len(readout.times)` ...), or nothing -> Model.Fitness.calls;
+  * same file: in which branch(es) `self._configure_weights(weights=weights, weights_from_file=weights_from_file)` is
+    called, the `shape=` of the `np.full(...)` that expands a scalar weight in `fitness`, and whether target data and
+    weights are restricted through `_target_indexers` (time component under 'readout_time') -> Model.Fitness.wconf.
 """
 from __future__ import annotations
 
@@ -22,26 +30,63 @@ BOUNDS = {"rows": "BRows", "cols": "BCols", "readout_times": "BTimes"}
 OPS = {ast.Eq: "CEq", ast.NotEq: "CNe", ast.LtE: "CLe", ast.Lt: "CLt", ast.GtE: "CGe", ast.Gt: "CGt"}
 
 
-def _expr(node, sides: dict) -> str:
-    """sides: name of the variable -> 'Tgt' | 'Out'."""
+def _range_dim(node, sides):
+    """<range>.<dim> -> (side, dim) or None"""
+    if (isinstance(node, ast.Attribute) and node.attr in DIMS and isinstance(node.value, ast.Name)
+            and node.value.id in sides):
+        return sides[node.value.id], DIMS[node.attr]
+    return None
+
+
+def _helper_call(node, name: str, sides):
+    """`name(<range>.<dim>, <bound>)` -> (side, dim, bound) or None"""
+    if (isinstance(node, ast.Call) and isinstance(node.func, ast.Name) and node.func.id == name and len(node.args) == 2
+            and not node.keywords and isinstance(node.args[1], ast.Name) and node.args[1].id in BOUNDS):
+        rd = _range_dim(node.args[0], sides)
+        if rd is not None:
+            return rd[0], rd[1], BOUNDS[node.args[1].id]
+    return None
+
+
+def _expr(node, sides: dict, env: dict | None = None, helpers: frozenset = frozenset()) -> str:
+    """sides: name of the variable -> 'Tgt' | 'Out';  env: local name -> Gallina expr (results of `_bounds`)."""
+    env = env or {}
     if isinstance(node, ast.BinOp) and isinstance(node.op, ast.Sub):
-        return f"(ESub {_expr(node.left, sides)} {_expr(node.right, sides)})"
+        return f"(ESub {_expr(node.left, sides, env, helpers)} {_expr(node.right, sides, env, helpers)})"
+    if isinstance(node, ast.Name) and node.id in env:
+        return env[node.id]
     if isinstance(node, ast.Name) and node.id in BOUNDS:
         return f"(EBound {BOUNDS[node.id]})"
-    if (isinstance(node, ast.Attribute) and node.attr in ("start", "stop") and isinstance(node.value, ast.Attribute)
-            and node.value.attr in DIMS and isinstance(node.value.value, ast.Name) and node.value.value.id in sides):
-        ctor = "EStart" if node.attr == "start" else "EStop"
-        return f"({ctor} {sides[node.value.value.id]} {DIMS[node.value.attr]})"
+    if isinstance(node, ast.Constant) and isinstance(node.value, int) and not isinstance(node.value, bool):
+        return f"(EConst {node.value})" if node.value >= 0 else f"(EConst ({node.value}))"
+    if (isinstance(node, ast.Attribute) and node.attr in ("start", "stop")):
+        rd = _range_dim(node.value, sides)
+        if rd is not None:
+            return f"({'EStart' if node.attr == 'start' else 'EStop'} {rd[0]} {rd[1]})"
+    if "_length" in helpers:
+        h = _helper_call(node, "_length", sides)
+        if h is not None:
+            return f"(ESub (ERStop {h[0]} {h[1]} {h[2]}) (ERStart {h[0]} {h[1]} {h[2]}))"
+    if "_bounds" in helpers and isinstance(node, ast.Subscript) and isinstance(node.slice, ast.Constant) \
+            and node.slice.value in (0, 1):
+        h = _helper_call(node.value, "_bounds", sides)
+        if h is not None:
+            return f"({'ERStart' if node.slice.value == 0 else 'ERStop'} {h[0]} {h[1]} {h[2]})"
     fail(node, "unsupported expression in a range comparison")
 
 
-def _compare(node, sides) -> tuple[bool, str, str, str]:
+def _compare(node, sides, env=None, helpers=frozenset()) -> list[tuple[bool, str, str, str]]:
+    """one guard per comparison: `not a <= b <= c` raises as soon as one link fails, in order"""
     neg = False
     if isinstance(node, ast.UnaryOp) and isinstance(node.op, ast.Not):
         neg, node = True, node.operand
-    if not (isinstance(node, ast.Compare) and len(node.ops) == 1 and type(node.ops[0]) in OPS):
-        fail(node, "expected a single comparison")
-    return neg, _expr(node.left, sides), OPS[type(node.ops[0])], _expr(node.comparators[0], sides)
+    if not (isinstance(node, ast.Compare) and all(type(o) in OPS for o in node.ops)):
+        fail(node, "expected a comparison")
+    if len(node.ops) > 1 and not neg:
+        fail(node, "a chained comparison is only supported under `not`")
+    terms = [node.left, *node.comparators]
+    return [(neg, _expr(x, sides, env, helpers), OPS[type(op)], _expr(y, sides, env, helpers))
+            for x, op, y in zip(terms, node.ops, terms[1:])]
 
 
 def _is_isinstance(node, var: str, cls: str) -> bool:
@@ -58,9 +103,75 @@ def _raises_value_error(stmts) -> bool:
     return isinstance(name, ast.Name) and name.id == "ValueError"
 
 
-def _guards(fn: ast.FunctionDef, sides: dict, allow_pre: bool) -> list[str]:
+def _cond_default(node, attr: str, default_src: str, var: str) -> bool:
+    """`<default> if <var>.<attr> is None else <var>.<attr>` (or the mirrored `is not None` form)"""
+    if not isinstance(node, ast.IfExp):
+        return False
+    t = node.test
+    if not (isinstance(t, ast.Compare) and len(t.ops) == 1 and ast.unparse(t.left) == f"{var}.{attr}"
+            and isinstance(t.comparators[0], ast.Constant) and t.comparators[0].value is None):
+        return False
+    dflt, val = (node.body, node.orelse) if isinstance(t.ops[0], ast.Is) else (node.orelse, node.body)
+    if not isinstance(t.ops[0], (ast.Is, ast.IsNot)):
+        return False
+    return ast.unparse(dflt) == default_src and ast.unparse(val) == f"{var}.{attr}"
+
+
+def _helpers(tree) -> frozenset:
+    """Which of the helpers `_bounds(data, size) -> (start or 0, stop or size)` and
+    `_length(data, size) -> stop - start` exist with exactly that meaning."""
+    found = set()
+    fns = {n.name: n for n in tree.body if isinstance(n, ast.FunctionDef)}
+    fb = fns.get("_bounds")
+    if fb is not None:
+        if [a.arg for a in fb.args.args] != ["data", "size"] or fb.args.defaults or fb.args.kwonlyargs:
+            fail(fb, "_bounds signature")
+        vals = {}
+        body = body_no_doc(fb)
+        for st in body[:-1]:
+            if isinstance(st, ast.AnnAssign) and isinstance(st.target, ast.Name) and st.value is not None:
+                vals[st.target.id] = st.value
+            elif isinstance(st, ast.Assign) and len(st.targets) == 1 and isinstance(st.targets[0], ast.Name):
+                vals[st.targets[0].id] = st.value
+            else:
+                fail(st, "_bounds: unsupported statement")
+        ret = body[-1] if body else None
+        if not (isinstance(ret, ast.Return) and isinstance(ret.value, ast.Tuple) and len(ret.value.elts) == 2):
+            fail(fb, "_bounds must return (start, stop)")
+        r0, r1 = (vals.get(e.id, e) if isinstance(e, ast.Name) else e for e in ret.value.elts)
+        if not (_cond_default(r0, "start", "0", "data") and _cond_default(r1, "stop", "size", "data")):
+            fail(fb, "_bounds must return (0 if data.start is None else data.start, size if data.stop is None else data.stop)")
+        found.add("_bounds")
+    fl = fns.get("_length")
+    if fl is not None:
+        if "_bounds" not in found or [a.arg for a in fl.args.args] != ["data", "size"] or fl.args.defaults:
+            fail(fl, "_length signature")
+        body = body_no_doc(fl)
+        ok = (len(body) == 2 and isinstance(body[0], ast.Assign) and ast.unparse(body[0]) == "start, stop = _bounds(data, size)"
+              and isinstance(body[1], ast.Return) and body[1].value is not None and ast.unparse(body[1].value) == "stop - start")
+        ok = ok or (len(body) == 1 and isinstance(body[0], ast.Return) and body[0].value is not None
+                    and ast.unparse(body[0].value) == "_bounds(data, size)[1] - _bounds(data, size)[0]")
+        if not ok:
+            fail(fl, "_length must return stop - start of _bounds(data, size)")
+        found.add("_length")
+    return frozenset(found)
+
+
+def _guards(fn: ast.FunctionDef, sides: dict, allow_pre: bool, helpers: frozenset = frozenset()) -> list[str]:
     out = []
+    env: dict = {}
     for st in body_no_doc(fn):
+        # <a>, <b> = _bounds(<range>.<dim>, <bound>)
+        if ("_bounds" in helpers and isinstance(st, ast.Assign) and len(st.targets) == 1
+                and isinstance(st.targets[0], ast.Tuple) and len(st.targets[0].elts) == 2
+                and all(isinstance(e, ast.Name) for e in st.targets[0].elts)):
+            h = _helper_call(st.value, "_bounds", sides)
+            a, b = (e.id for e in st.targets[0].elts)
+            if h is None or a in env or b in env or a in BOUNDS or b in BOUNDS or a in sides or b in sides:
+                fail(st, f"{fn.name}: unsupported assignment")
+            env[a] = f"(ERStart {h[0]} {h[1]} {h[2]})"
+            env[b] = f"(ERStop {h[0]} {h[1]} {h[2]})"
+            continue
         if not (isinstance(st, ast.If) and not st.orelse and _raises_value_error(st.body)):
             fail(st, f"{fn.name}: every statement must be `if <cond>: raise ValueError(...)`")
         t = st.test
@@ -76,8 +187,8 @@ def _guards(fn: ast.FunctionDef, sides: dict, allow_pre: bool) -> list[str]:
                     and _is_isinstance(t.values[1], "out_fit_range", "FitRange3D")):
                 fail(t, "unsupported conjunction in a range guard")
             pre, t = "PBoth3D", t.values[2]
-        neg, a, op, b = _compare(t, sides)
-        out.append(f"GCmp {pre} {'true' if neg else 'false'} {a} {op} {b}")
+        for neg, a, op, b in _compare(t, sides, env, helpers):
+            out.append(f"GCmp {pre} {'true' if neg else 'false'} {a} {op} {b}")
     if not out:
         fail(fn, f"{fn.name}: no guard found")
     return out
@@ -89,63 +200,403 @@ def _kw_call(node, func_src: str, kws: dict) -> bool:
             and {k.arg: ast.unparse(k.value) for k in node.value.keywords} == kws)
 
 
-def _check_dispatch(fn: ast.FunctionDef):
+def _check_dispatch(fn: ast.FunctionDef) -> bool:
+    """-> target_first: is the target range validated before the two ranges are compared?"""
     if [a.arg for a in fn.args.args] != ["target_fit_range", "out_fit_range", "rows", "cols", "readout_times"]:
         fail(fn, "check_fit_ranges signature")
     b = body_no_doc(fn)
     if len(b) != 3 or not all(isinstance(s, ast.If) for s in b):
         fail(fn, "check_fit_ranges body must be three if statements")
-    s0, s1, s2 = b
+    s0 = b[0]
     if not (ast.unparse(s0.test) == "not target_fit_range" and len(s0.body) == 1 and isinstance(s0.body[0], ast.Return)
             and s0.body[0].value is None and not s0.orelse):
         fail(s0, "expected `if not target_fit_range: return`")
-    if not (ast.unparse(s1.test) == "out_fit_range" and len(s1.body) == 1 and not s1.orelse and _kw_call(
-            s1.body[0], "_check_out_fit_ranges",
-            {"target_fit_range": "target_fit_range", "out_fit_range": "out_fit_range"})):
-        fail(s1, "expected `if out_fit_range: _check_out_fit_ranges(target_fit_range=..., out_fit_range=...)`")
+    target_first = ast.unparse(b[2].test) == "out_fit_range"
+    s1, s2 = (b[2], b[1]) if target_first else (b[1], b[2])
+    same = {"target_fit_range": "target_fit_range", "out_fit_range": "out_fit_range"}
+    sized = dict(same, rows="rows", cols="cols", readout_times="readout_times")
+    if not (ast.unparse(s1.test) == "out_fit_range" and len(s1.body) == 1 and not s1.orelse
+            and (_kw_call(s1.body[0], "_check_out_fit_ranges", same) or _kw_call(s1.body[0], "_check_out_fit_ranges", sized))):
+        fail(s1, "expected `if out_fit_range: _check_out_fit_ranges(target_fit_range=..., out_fit_range=...[, rows=rows, "
+                 "cols=cols, readout_times=readout_times])`")
     if not (_is_isinstance(s2.test, "target_fit_range", "FitRange2D") and len(s2.body) == 1 and len(s2.orelse) == 1
             and _kw_call(s2.body[0], "target_fit_range.check", {"rows": "rows", "cols": "cols"})
             and _kw_call(s2.orelse[0], "target_fit_range.check",
                          {"rows": "rows", "cols": "cols", "readout_times": "readout_times"})):
         fail(s2, "expected the 2D/3D dispatch to target_fit_range.check(...)")
+    return target_first
 
 
-def render(out_guards, c2, c3) -> str:
+# ------------------------------------------------------------------------------------------ call sites
+
+REL_FIT = "pyxel/calibration/fitting_datatree.py"
+DIMKEY = {"readout_time": "DTime", "y": "DRow", "x": "DCol"}
+GEOM = {"row": "DRow", "col": "DCol"}
+TARGET_DIMS = {"single": ["processor", "y", "x"], "multi": ["processor", "readout_time", "y", "x"]}
+
+
+def _str_const(node):
+    return node.value if isinstance(node, ast.Constant) and isinstance(node.value, str) else None
+
+
+def _assignments(stmts) -> dict:
+    """name -> list of (value node, index in a tuple target or None) for every plain assignment in `stmts`
+    (nested blocks included)"""
+    env: dict = {}
+    for st in stmts:
+        for n in ast.walk(st):
+            tgts, val = [], None
+            if isinstance(n, ast.Assign):
+                tgts, val = n.targets, n.value
+            elif isinstance(n, ast.AnnAssign) and n.value is not None:
+                tgts, val = [n.target], n.value
+            for t in tgts:
+                if isinstance(t, ast.Name):
+                    env.setdefault(t.id, []).append((val, None))
+                elif isinstance(t, (ast.Tuple, ast.List)):
+                    for i, e in enumerate(t.elts):
+                        if isinstance(e, ast.Name):
+                            env.setdefault(e.id, []).append((val, (i, len(t.elts))))
+    return env
+
+
+class _Sites:
+    def __init__(self, fn: ast.FunctionDef):
+        self.fn = fn
+
+    def is_target_array(self, node, env, mode, depth=0) -> list | None:
+        """dims of `node` if it denotes the target data read from the target file(s), else None"""
+        if depth > 6:
+            return None
+        if isinstance(node, ast.Name):
+            vals = env.get(node.id, [])
+            if len(vals) != 1 or vals[0][1] is not None:
+                return None
+            return self.is_target_array(vals[0][0], env, mode, depth + 1)
+        if isinstance(node, ast.Subscript) and isinstance(node.slice, ast.Constant) \
+                and isinstance(node.slice.value, int) and not isinstance(node.slice.value, bool):
+            inner = self.is_target_array(node.value, env, mode, depth + 1)      # one target file: X[0]
+            return inner[1:] if inner and inner[0] == "processor" else None
+        if isinstance(node, ast.Call):
+            f = ast.unparse(node.func)
+            kw = {k.arg: k.value for k in node.keywords}
+            if f in ("create_processor_data_array", "read_datacubes") and not node.args \
+                    and set(kw) == {"filenames"} and ast.unparse(kw["filenames"]) == "target_filenames":
+                return ["processor", "y", "x"] if f == "create_processor_data_array" else \
+                    ["processor", "readout_time", "y", "x"]
+            if f in ("np.array", "np.asarray", "numpy.array", "numpy.asarray") and len(node.args) == 1 and not kw:
+                return self.is_target_array(node.args[0], env, mode, depth + 1)
+            if f in ("xr.DataArray", "xarray.DataArray", "DataArray") and node.args and "dims" in kw \
+                    and isinstance(kw["dims"], (ast.List, ast.Tuple)):
+                dims = [_str_const(e) for e in kw["dims"].elts]
+                inner = self.is_target_array(node.args[0], env, mode, depth + 1)
+                if inner is not None and len(inner) == len(dims) and all(dims):
+                    if dims != inner:
+                        fail(node, "target data array built with unexpected dimension names")
+                    return dims
+        return None
+
+    def dim_of_index(self, dims, node):
+        if isinstance(node, ast.Constant) and isinstance(node.value, int) and not isinstance(node.value, bool):
+            i = node.value
+        elif isinstance(node, ast.UnaryOp) and isinstance(node.op, ast.USub) and isinstance(node.operand, ast.Constant):
+            i = -node.operand.value
+        else:
+            return None
+        if not -len(dims) <= i < len(dims):
+            return None
+        return dims[i]
+
+    def is_readout_times(self, node) -> bool:
+        return ast.unparse(node) in ("self.readout.times", "readout.times")
+
+    def quantity(self, node, env, mode, depth=0) -> str:
+        """Gallina `qty` of the expression passed as rows / cols / readout_times"""
+        if depth > 6:
+            fail(node, "size expression too deep")
+        if isinstance(node, ast.Constant) and node.value is None:
+            return "QAbsent"
+        # a local name: follow its unique assignment
+        if isinstance(node, ast.Name):
+            vals = env.get(node.id, [])
+            if len(vals) != 1:
+                fail(node, f"size name {node.id!r} has {len(vals)} assignments in this branch")
+            val, pos = vals[0]
+            if pos is None:
+                return self.quantity(val, env, mode, depth + 1)
+            # a, b, c = <array>.shape
+            if isinstance(val, ast.Attribute) and val.attr == "shape":
+                dims = self.is_target_array(val.value, env, mode)
+                if dims is not None and len(dims) == pos[1] and dims[pos[0]] in DIMKEY:
+                    return f"(QTgt {DIMKEY[dims[pos[0]]]})"
+            fail(node, "unsupported tuple assignment of a size")
+        # int(...) wrapper
+        if isinstance(node, ast.Call) and isinstance(node.func, ast.Name) and node.func.id == "int" \
+                and len(node.args) == 1 and not node.keywords:
+            return self.quantity(node.args[0], env, mode, depth + 1)
+        # len(X["dim"]) / len(X.coords["dim"]) / len(X.dim) ; len(readout.times)
+        if isinstance(node, ast.Call) and isinstance(node.func, ast.Name) and node.func.id == "len" \
+                and len(node.args) == 1 and not node.keywords:
+            a = node.args[0]
+            if self.is_readout_times(a):
+                return "(QDet DTime)"
+            if isinstance(a, ast.Subscript):
+                base = a.value.value if isinstance(a.value, ast.Attribute) and a.value.attr in ("coords", "indexes") \
+                    else a.value
+                dims = self.is_target_array(base, env, mode)
+                key = _str_const(a.slice)
+                if dims is not None and key in dims and key in DIMKEY:
+                    return f"(QTgt {DIMKEY[key]})"
+            if isinstance(a, ast.Attribute) and a.attr in DIMKEY:
+                dims = self.is_target_array(a.value, env, mode)
+                if dims is not None and a.attr in dims:
+                    return f"(QTgt {DIMKEY[a.attr]})"
+            fail(node, "unsupported len(...) passed to check_fit_ranges")
+        # X.sizes["dim"] / X.shape[i] / X["dim"].size
+        if isinstance(node, ast.Subscript) and isinstance(node.value, ast.Attribute) and node.value.attr in ("sizes", "shape"):
+            dims = self.is_target_array(node.value.value, env, mode)
+            if dims is not None:
+                key = _str_const(node.slice) if node.value.attr == "sizes" else self.dim_of_index(dims, node.slice)
+                if key in dims and key in DIMKEY:
+                    return f"(QTgt {DIMKEY[key]})"
+            fail(node, "unsupported sizes/shape expression passed to check_fit_ranges")
+        if isinstance(node, ast.Attribute) and node.attr == "size":
+            if self.is_readout_times(node.value):
+                return "(QDet DTime)"
+            a = node.value
+            if isinstance(a, ast.Subscript):
+                dims = self.is_target_array(a.value, env, mode)
+                key = _str_const(a.slice)
+                if dims is not None and key in dims and key in DIMKEY:
+                    return f"(QTgt {DIMKEY[key]})"
+            fail(node, "unsupported .size expression passed to check_fit_ranges")
+        # detector geometry: processor.detector.geometry.row / <name bound to ...geometry>.row
+        if isinstance(node, ast.Attribute) and node.attr in GEOM:
+            g = node.value
+            if isinstance(g, ast.Name):
+                vals = env.get(g.id, [])
+                if len(vals) == 1 and vals[0][1] is None:
+                    g = vals[0][0]
+            if ast.unparse(g) in ("processor.detector.geometry", "self.processor.detector.geometry"):
+                return f"(QDet {GEOM[node.attr]})"
+        fail(node, "unsupported quantity passed to check_fit_ranges")
+
+
+def _call_sites(tree) -> tuple[str, str]:
+    fn = find_func(tree, "__init__", cls="ModelFittingDataTree")
+    sites = _Sites(fn)
+    branch_ifs = [n for n in ast.walk(fn) if isinstance(n, ast.If)
+                  and ast.unparse(n.test) in ("self.readout.time_domain_simulation", "readout.time_domain_simulation")]
+    if len(branch_ifs) != 1 or not branch_ifs[0].orelse:
+        fail(fn, "expected one `if self.readout.time_domain_simulation: ... else: ...` in ModelFittingDataTree.__init__")
+    node_if = branch_ifs[0]
+    all_calls = [n for n in ast.walk(fn) if isinstance(n, ast.Call) and ast.unparse(n.func).split(".")[-1] == "check_fit_ranges"]
+    out = {}
+    for mode, stmts in (("multi", node_if.body), ("single", node_if.orelse)):
+        calls = [n for st in stmts for n in ast.walk(st)
+                 if isinstance(n, ast.Call) and ast.unparse(n.func).split(".")[-1] == "check_fit_ranges"]
+        if len(calls) != 1:
+            fail(node_if, f"expected exactly one call of check_fit_ranges in the {mode} branch, found {len(calls)}")
+        call = calls[0]
+        if not any(isinstance(st, ast.Expr) and st.value is call for st in stmts):
+            fail(call, "check_fit_ranges must be called unconditionally as a statement of the branch")
+        if call.args:
+            fail(call, "check_fit_ranges must be called with keyword arguments")
+        kw = {k.arg: k.value for k in call.keywords}
+        if None in kw or not {"target_fit_range", "out_fit_range", "rows", "cols"} <= set(kw) \
+                or not set(kw) <= {"target_fit_range", "out_fit_range", "rows", "cols", "readout_times"}:
+            fail(call, "unexpected keywords in the call of check_fit_ranges")
+        if ast.unparse(kw["target_fit_range"]) != "target_fit_range" or ast.unparse(kw["out_fit_range"]) != "out_fit_range":
+            fail(call, "check_fit_ranges must receive target_fit_range / out_fit_range unchanged")
+        # names assigned in this branch (only statements before the call count) or before the branch
+        idx = next(i for i, st in enumerate(stmts) if isinstance(st, ast.Expr) and st.value is call)
+        env = _assignments(stmts[:idx])
+        outer = _assignments([st for st in ast.walk(fn) if isinstance(st, (ast.Assign, ast.AnnAssign))
+                              and st.lineno < node_if.lineno])
+        for k, v in outer.items():
+            env.setdefault(k, v)
+        q = {k: sites.quantity(kw[k], env, mode) for k in ("rows", "cols")}
+        q["readout_times"] = sites.quantity(kw["readout_times"], env, mode) if "readout_times" in kw else "QAbsent"
+        if "QAbsent" in (q["rows"], q["cols"]):
+            fail(call, "rows / cols must be given")
+        out[mode] = f"{{| cs_rows := {q['rows']}; cs_cols := {q['cols']}; cs_times := {q['readout_times']} |}}"
+    if len(all_calls) != 2:
+        fail(fn, f"expected two calls of check_fit_ranges in ModelFittingDataTree.__init__, found {len(all_calls)}")
+    return out["single"], out["multi"]
+
+
+# ------------------------------------------------------------------------------------------ weights
+
+def _is_cfg_weights(st) -> bool:
+    return _kw_call(st, "self._configure_weights", {"weights": "weights", "weights_from_file": "weights_from_file"})
+
+
+def _weights_conf(tree) -> str:
+    """where `self._configure_weights(weights=weights, weights_from_file=weights_from_file)` is called in __init__
+    (single-readout branch / time-domain branch / after both), and the shape a scalar weight is expanded to in
+    `fitness` (`np.full(shape=..., fill_value=self.weighting[processor_id])`)"""
+    fn = find_func(tree, "__init__", cls="ModelFittingDataTree")
+    calls = [n for n in ast.walk(fn) if isinstance(n, ast.Call) and ast.unparse(n.func) == "self._configure_weights"]
+    branch_ifs = [n for n in ast.walk(fn) if isinstance(n, ast.If)
+                  and ast.unparse(n.test) in ("self.readout.time_domain_simulation", "readout.time_domain_simulation")]
+    if len(branch_ifs) != 1:
+        fail(fn, "expected one `if self.readout.time_domain_simulation` in ModelFittingDataTree.__init__")
+    node_if = branch_ifs[0]
+    single = multi = False
+    seen = 0
+    for st in node_if.body:
+        if _is_cfg_weights(st):
+            multi, seen = True, seen + 1
+    for st in node_if.orelse:
+        if _is_cfg_weights(st):
+            single, seen = True, seen + 1
+    # the block that contains the if: a call there (before or after the if) serves both kinds of target
+    for parent in ast.walk(fn):
+        for field in ("body", "orelse"):
+            blk = getattr(parent, field, None)
+            if isinstance(blk, list) and node_if in blk:
+                for st in blk:
+                    if _is_cfg_weights(st):
+                        single = multi = True
+                        seen += 1
+    if seen != len(calls):
+        fail(fn, "a call of self._configure_weights is conditional, nested or passes other arguments")
+    ff = find_func(tree, "fitness", cls="ModelFittingDataTree")
+    fulls = [n for n in ast.walk(ff) if isinstance(n, ast.Call) and ast.unparse(n.func) in ("np.full", "numpy.full")]
+    if len(fulls) != 1:
+        fail(ff, f"expected one np.full(...) expanding the scalar weight in fitness, found {len(fulls)}")
+    kw = {k.arg: k.value for k in fulls[0].keywords}
+    args = list(fulls[0].args)
+    shape = kw.get("shape", args[0] if args else None)
+    fill = kw.get("fill_value", args[1] if len(args) > 1 else None)
+    if shape is None or fill is None or ast.unparse(fill) != "self.weighting[processor_id]":
+        fail(fulls[0], "np.full(shape=..., fill_value=self.weighting[processor_id]) expected")
+    src = ast.unparse(shape)
+    geo = ("processor.detector.geometry.row", "processor.detector.geometry.col")
+    # (the restricted result has the target's shape up to a leading axis of length 1 whenever a fitness is computed)
+    if src in ("target_data.shape", "np.shape(target_data)", "tuple(target_data.shape)", "simulated_data.shape"):
+        sh = "ShTarget"
+    elif isinstance(shape, ast.Tuple) and tuple(ast.unparse(e) for e in shape.elts) == geo:
+        sh = "ShDetector"
+    else:
+        fail(shape, "unsupported shape of the scalar weighting array")
+    b = {True: "true", False: "false"}
+    return (f"{{| wc_single := {b[single]}; wc_multi := {b[multi]}; wc_shape := {sh}; "
+            f"wc_time_key := {b[_time_key(tree)]} |}}")
+
+
+def _time_key(tree) -> bool:
+    """Are the target data and the weights read from file restricted with the target range's time component under
+    their own dimension name 'readout_time'?  `X.isel(indexers=<range>.to_dict())` -> False;
+    `X.isel(indexers=_target_indexers(<range>))` with `_target_indexers` renaming 'time' to 'readout_time' -> True."""
+    def indexer_kind(call, rng_src):
+        kw = {k.arg: k.value for k in call.keywords}
+        if call.args or set(kw) != {"indexers"}:
+            fail(call, "isel(indexers=...) expected")
+        src = ast.unparse(kw["indexers"])
+        if src == f"{rng_src}.to_dict()":
+            return False
+        if src == f"_target_indexers({rng_src})":
+            return True
+        fail(call, "unsupported indexers of the target data / weights")
+
+    fi = next((n for n in tree.body if isinstance(n, ast.FunctionDef) and n.name == "_target_indexers"), None)
+    if fi is not None:
+        body = body_no_doc(fi)
+        arg = fi.args.args[0].arg if len(fi.args.args) == 1 else None
+        ok = (arg is not None and len(body) == 3
+              and isinstance(body[0], (ast.Assign, ast.AnnAssign)) and ast.unparse(body[0].value) == f"dict({arg}.to_dict())"
+              and isinstance(body[1], ast.If) and not body[1].orelse and len(body[1].body) == 1
+              and isinstance(body[2], ast.Return) and body[2].value is not None)
+        if ok:
+            name = ast.unparse(body[0].target if isinstance(body[0], ast.AnnAssign) else body[0].targets[0])
+            ok = (ast.unparse(body[1].test) == f"'time' in {name}"
+                  and ast.unparse(body[1].body[0]) == f"{name}['readout_time'] = {name}.pop('time')"
+                  and ast.unparse(body[2].value) == name)
+        if not ok:
+            fail(fi, "_target_indexers must copy <range>.to_dict() and rename the key 'time' to 'readout_time'")
+    init = find_func(tree, "__init__", cls="ModelFittingDataTree")
+    tsel = [n.value for n in ast.walk(init) if isinstance(n, ast.Assign) and len(n.targets) == 1
+            and ast.unparse(n.targets[0]) == "self.all_target_data" and isinstance(n.value, ast.Call)
+            and ast.unparse(n.value.func) == "targets.isel"]
+    if len(tsel) != 1:
+        fail(init, "expected one `self.all_target_data = targets.isel(indexers=...)`")
+    cw = find_func(tree, "_configure_weights", cls="ModelFittingDataTree")
+    wsel = [n.value for n in ast.walk(cw) if isinstance(n, ast.Assign) and len(n.targets) == 1
+            and ast.unparse(n.targets[0]) == "self.weighting_from_file" and isinstance(n.value, ast.Call)
+            and ast.unparse(n.value.func) == "weights_data_array.isel"]
+    if len(wsel) != 1:
+        fail(cw, "expected one `self.weighting_from_file = weights_data_array.isel(indexers=...)`")
+    kt, kw_ = indexer_kind(tsel[0], "target_fit_range"), indexer_kind(wsel[0], "self.targ_fit_range")
+    if (kt or kw_) and fi is None:
+        fail(init, "_target_indexers is not defined")
+    if kt != kw_:
+        fail(cw, "target data and weights are indexed differently")
+    return kt
+
+
+WCONF = "{| wc_single := true; wc_multi := true; wc_shape := ShTarget; wc_time_key := true |}"
+
+
+def render(out_guards, c2, c3, single=None, multi=None, target_first=True, wconf=None) -> str:
     def lst(gs):
         return "[ " + ";\n      ".join(gs) + " ]"
     return (HEADER + "From Coq Require Import ZArith List.\nFrom PyxelV Require Import Model.Fitness.\n"
-            "Import ListNotations.\n"
+            "Import ListNotations.\nLocal Open Scope Z_scope.\n"
             "Definition src_checker : checker :=\n"
             f"  {{| out_guards :=\n      {lst(out_guards)};\n"
             f"     check2d :=\n      {lst(c2)};\n"
-            f"     check3d :=\n      {lst(c3)} |}}.\n")
+            f"     check3d :=\n      {lst(c3)};\n"
+            f"     target_first := {'true' if target_first else 'false'} |}}.\n"
+            "Definition src_calls : calls :=\n"
+            f"  {{| call_single := {single or CALL_SINGLE};\n     call_multi := {multi or CALL_MULTI} |}}.\n"
+            f"Definition src_weights : wconf :=\n  {wconf or WCONF}.\n")
+
+
+CALL_SINGLE = "{| cs_rows := (QTgt DRow); cs_cols := (QTgt DCol); cs_times := QAbsent |}"
+CALL_MULTI = "{| cs_rows := (QTgt DRow); cs_cols := (QTgt DCol); cs_times := (QTgt DTime) |}"
 
 
 def translate(repo: Path) -> str:
     tree = parse(repo, REL)
-    _check_dispatch(find_func(tree, "check_fit_ranges"))
+    helpers = _helpers(tree)
+    target_first = _check_dispatch(find_func(tree, "check_fit_ranges"))
     fo = find_func(tree, "_check_out_fit_ranges")
-    if [a.arg for a in fo.args.args] != ["target_fit_range", "out_fit_range"]:
+    params = [a.arg for a in fo.args.args]
+    if params not in (["target_fit_range", "out_fit_range"],
+                      ["target_fit_range", "out_fit_range", "rows", "cols", "readout_times"]):
         fail(fo, "_check_out_fit_ranges signature")
-    og = _guards(fo, {"target_fit_range": "Tgt", "out_fit_range": "Out"}, allow_pre=True)
+    og = _guards(fo, {"target_fit_range": "Tgt", "out_fit_range": "Out"}, allow_pre=True, helpers=helpers)
+    if len(params) == 2 and any("EBound" in g or "ERSt" in g for g in og):
+        fail(fo, "_check_out_fit_ranges uses sizes it does not receive")
     f2 = find_func(tree, "check", cls="FitRange2D")
     if [a.arg for a in f2.args.args] != ["self", "rows", "cols"]:
         fail(f2, "FitRange2D.check signature")
     f3 = find_func(tree, "check", cls="FitRange3D")
     if [a.arg for a in f3.args.args] != ["self", "rows", "cols", "readout_times"]:
         fail(f3, "FitRange3D.check signature")
-    c2 = _guards(f2, {"self": "Tgt"}, allow_pre=False)
-    c3 = _guards(f3, {"self": "Tgt"}, allow_pre=False)
-    return render(og, c2, c3)
+    c2 = _guards(f2, {"self": "Tgt"}, allow_pre=False, helpers=helpers)
+    c3 = _guards(f3, {"self": "Tgt"}, allow_pre=False, helpers=helpers)
+    fit_tree = parse(repo, REL_FIT)
+    single, multi = _call_sites(fit_tree)
+    return render(og, c2, c3, single, multi, target_first, _weights_conf(fit_tree))
 
 
+def _tgt_block(d, b):
+    rs, re_ = f"(ERStart Tgt {d} {b})", f"(ERStop Tgt {d} {b})"
+    return [f"GCmp PAlways true (EConst 0) CLe {rs}", f"GCmp PAlways true {rs} CLe {re_}",
+            f"GCmp PAlways true {re_} CLe (EBound {b})"]
+
+
+def _len_guard(p, d, b):
+    def ln(s):
+        return f"(ESub (ERStop {s} {d} {b}) (ERStart {s} {d} {b}))"
+    return f"GCmp {p} false {ln('Tgt')} CNe {ln('Out')}"
+
+
+# the repaired tree (lengths compared, bounds validated, absent components resolved)
 FALLBACK = render(
-    ["GCmp PBoth3D false (EStop Tgt DTime) CNe (EStop Out DTime)",
-     "GCmp PAlways false (EStop Tgt DRow) CNe (EStop Out DRow)",
-     "GCmp PAlways false (EStop Tgt DCol) CNe (EStop Out DCol)"],
-    ["GCmp PAlways true (EStop Tgt DRow) CLe (EBound BRows)",
-     "GCmp PAlways true (EStop Tgt DCol) CLe (EBound BCols)"],
-    ["GCmp PAlways true (EStop Tgt DRow) CLe (EBound BRows)",
-     "GCmp PAlways true (EStop Tgt DCol) CLe (EBound BCols)",
-     "GNone BTimes",
-     "GCmp PAlways true (EStop Tgt DTime) CLe (EBound BTimes)"])
+    [_len_guard("PBoth3D", "DTime", "BTimes"), _len_guard("PAlways", "DRow", "BRows"), _len_guard("PAlways", "DCol", "BCols")],
+    _tgt_block("DRow", "BRows") + _tgt_block("DCol", "BCols"),
+    _tgt_block("DRow", "BRows") + _tgt_block("DCol", "BCols") + ["GNone BTimes"] + _tgt_block("DTime", "BTimes"),
+    target_first=True)
